@@ -202,6 +202,17 @@ func (g *pg) exprN(d int) *X {
 	return &X{K: op, A: []*X{l, r}}
 }
 
+// literalArith is arithmetic over number literals only.
+func (g *pg) literalArith(d int) *X {
+	if d <= 0 || g.chance(2, "laleaf") {
+		return g.num()
+	}
+	if g.chance(5, "lapre") {
+		return &X{K: "minus", A: []*X{g.literalArith(d - 1)}}
+	}
+	return &X{K: g.oneOf("laop", "plus", "minus", "times", "divint"), A: []*X{g.literalArith(d - 1), g.literalArith(d - 1)}}
+}
+
 func (g *pg) exprS(d int) *X {
 	switch g.pick(6, "sk") {
 	case 0:
@@ -637,8 +648,11 @@ func (g *pg) stmt(c sctx) string {
 	case 5:
 		return g.oneOf("let?", "", "let ") + "[" + g.oneOf("mv", "a, b", "x,y", "a ,b, c") + "] := " + g.src(&X{K: "list", A: []*X{g.exprN(1), g.exprN(1), g.exprN(1)}})
 	case 6:
+		// the value stored into a container is built from literals only: storing a container into
+		// itself makes the interpreter's error formatting recurse without end (a fatal stack overflow
+		// of the host - C06's subject, and it would kill this process)
 		tgt := g.oneOf("ptgt", "m.k", "l[0]", "m.o.p[1].q", "m[\"k\"]", "m.o.p[0]", "o.v", "l[len(l) - 1]")
-		return tgt + " := " + g.src(g.exprN(2))
+		return tgt + " := " + g.src(g.literalArith(2))
 	case 7:
 		return g.oneOf("tb", "tt", "ff") + " := " + g.src(g.exprB(3))
 	case 8:
